@@ -83,6 +83,14 @@ module N =
     | Lt -> true
     | _ -> false
 
+  (** val pow : coq_N -> coq_N -> coq_N **)
+
+  let pow n = function
+  | N0 -> Npos Coq_xH
+  | Npos p0 -> (match n with
+                | N0 -> N0
+                | Npos q -> Npos (Pos.pow q p0))
+
   (** val pos_div_eucl : positive -> coq_N -> coq_N * coq_N **)
 
   let rec pos_div_eucl a b =
@@ -122,6 +130,15 @@ module N =
   let modulo a b =
     snd (div_eucl a b)
 
+  (** val coq_lor : coq_N -> coq_N -> coq_N **)
+
+  let coq_lor n m =
+    match n with
+    | N0 -> m
+    | Npos p -> (match m with
+                 | N0 -> n
+                 | Npos q -> Npos (Pos.coq_lor p q))
+
   (** val coq_land : coq_N -> coq_N -> coq_N **)
 
   let coq_land n m =
@@ -130,6 +147,12 @@ module N =
     | Npos p -> (match m with
                  | N0 -> N0
                  | Npos q -> Pos.coq_land p q)
+
+  (** val to_nat : coq_N -> nat **)
+
+  let to_nat = function
+  | N0 -> O
+  | Npos p -> Pos.to_nat p
 
   (** val eq_dec : coq_N -> coq_N -> bool **)
 
